@@ -15,260 +15,18 @@ open Glm.Spec.C03
 section lin
 variable {α : Type} [CommRing α] [LinearOrder α]
 
-structure LinLike (o : Ops α) : Prop extends RingLike o where
-  lt : ∀ a b, o.lt a b = decide (a < b)
-  le : ∀ a b, o.le a b = decide (a ≤ b)
-  eq : ∀ a b, o.eq a b = decide (a = b)
-  lit_mono : ∀ n m : Int, -1073741824 ≤ n → n < m → m ≤ 1073741824 → o.lit n 1 < o.lit m 1
+/-- `LinLike` + commutativity of the bitwise operations (used by `identEq`) -/
+structure LinCommLike (o : Ops α) : Prop extends LinLike o where
   band_comm : ∀ a b, o.band a b = o.band b a
   bor_comm : ∀ a b, o.bor a b = o.bor b a
   bxor_comm : ∀ a b, o.bxor a b = o.bxor b a
 
 variable {o : Ops α}
 
-theorem nodeEq_sound (ho : LinLike o) (env : Nat → α) {a b : E} (h : nodeEq a b = true) :
-    a.eval o env = b.eval o env := by
-  simp only [nodeEq, Bool.or_eq_true, beq_iff_eq] at h
-  rcases h with h | h
-  · rw [h]
-  · exact polyEq_sound' ho.toRingLike h env
-
-theorem smallLit_eq {e : E} {n : Int} (h : smallLit e = some n) :
-    e = .lit n 1 ∧ -1073741824 ≤ n ∧ n ≤ 1073741824 := by
-  unfold smallLit at h
-  split at h
-  · rename_i m
-    split at h
-    · rename_i hc
-      simp only [Option.some.injEq] at h; subst h
-      simp only [Bool.and_eq_true, decide_eq_true_eq] at hc
-      exact ⟨rfl, hc.1, hc.2⟩
-    · cases h
-  · cases h
-
-theorem litLT_sound (ho : LinLike o) (env : Nat → α) {x y : E} (h : litLT x y = true) :
-    x.eval o env < y.eval o env := by
-  unfold litLT at h
-  split at h
-  · rename_i n m hn hm
-    obtain ⟨rfl, h1, _⟩ := smallLit_eq hn
-    obtain ⟨rfl, _, h2⟩ := smallLit_eq hm
-    simp only [decide_eq_true_eq] at h
-    exact ho.lit_mono n m h1 h h2
-  · cases h
-
-theorem litLE_sound (ho : LinLike o) (env : Nat → α) {x y : E} (h : litLE x y = true) :
-    x.eval o env ≤ y.eval o env := by
-  unfold litLE at h
-  split at h
-  · rename_i n m hn hm
-    obtain ⟨rfl, h1, _⟩ := smallLit_eq hn
-    obtain ⟨rfl, _, h2⟩ := smallLit_eq hm
-    simp only [decide_eq_true_eq] at h
-    rcases lt_or_eq_of_le h with h | h
-    · exact le_of_lt (ho.lit_mono n m h1 h h2)
-    · subst h; exact le_refl _
-  · cases h
-
-/-- every edge of the path's order graph holds -/
-def EdgesHold (o : Ops α) (env : Nat → α) (es : List (E × E × Bool)) : Prop :=
-  ∀ e ∈ es, e.1.eval o env ≤ e.2.1.eval o env ∧ (e.2.2 = true → e.1.eval o env < e.2.1.eval o env)
-
-theorem pathEdges_sound (ho : LinLike o) (env : Nat → α) {np : Path} (hp : PathHolds o env np) :
-    EdgesHold o env (edgesOf np) := by
-  intro e he
-  simp only [edgesOf, pathEdges, List.mem_filterMap] at he
-  obtain ⟨cb, hmem, hcb⟩ := he
-  have hc := hp cb hmem
-  split at hcb
-  · rename_i a b
-    simp only [Option.some.injEq] at hcb; subst hcb
-    simp only [C.eval, ho.lt, decide_eq_true_eq] at hc
-    exact ⟨le_of_lt hc, fun _ => hc⟩
-  · rename_i a b
-    simp only [Option.some.injEq] at hcb; subst hcb
-    simp only [C.eval, ho.lt, decide_eq_false_iff_not, not_lt] at hc
-    exact ⟨hc, fun h => by simp at h⟩
-  · rename_i a b
-    simp only [Option.some.injEq] at hcb; subst hcb
-    simp only [C.eval, ho.le, decide_eq_true_eq] at hc
-    exact ⟨hc, fun h => by simp at h⟩
-  · rename_i a b
-    simp only [Option.some.injEq] at hcb; subst hcb
-    simp only [C.eval, ho.le, decide_eq_false_iff_not, not_le] at hc
-    exact ⟨le_of_lt hc, fun _ => hc⟩
-  · cases hcb
-
-theorem reachLE_sound (ho : LinLike o) (env : Nat → α) {es : List (E × E × Bool)} (hes : EdgesHold o env es)
-    (n : Nat) (x y : E) (h : reachLE es n x y = true) : x.eval o env ≤ y.eval o env := by
-  induction n generalizing x with
-  | zero =>
-    simp only [reachLE, Bool.or_eq_true] at h
-    rcases h with h | h
-    · exact le_of_eq (nodeEq_sound ho env h)
-    · exact litLE_sound ho env h
-  | succ n ih =>
-    simp only [reachLE, Bool.or_eq_true, List.any_eq_true, Bool.and_eq_true] at h
-    rcases h with (h | h) | ⟨e, he, h1, h2⟩
-    · exact le_of_eq (nodeEq_sound ho env h)
-    · exact litLE_sound ho env h
-    · rw [← nodeEq_sound ho env h1]
-      exact le_trans (hes e he).1 (ih _ h2)
-
-theorem reachLT_sound (ho : LinLike o) (env : Nat → α) {es : List (E × E × Bool)} (hes : EdgesHold o env es)
-    (n : Nat) (x y : E) (h : reachLT es n x y = true) : x.eval o env < y.eval o env := by
-  induction n generalizing x with
-  | zero => exact litLT_sound ho env (by simpa [reachLT] using h)
-  | succ n ih =>
-    simp only [reachLT, Bool.or_eq_true, List.any_eq_true, Bool.and_eq_true] at h
-    rcases h with h | ⟨e, he, h1, h2⟩
-    · exact litLT_sound ho env h
-    · rw [← nodeEq_sound ho env h1]
-      rcases h2 with ⟨hs, h2⟩ | h2
-      · exact lt_of_lt_of_le ((hes e he).2 hs) (reachLE_sound ho env hes n _ _ h2)
-      · exact lt_of_le_of_lt (hes e he).1 (ih _ h2)
-
-theorem normCB_sound' (ho : LinLike o) (env : Nat → α) (n : Nat) (c : C) (b : Bool)
-    (h : c.eval o env = b) : PathHolds o env (normCB n c b) := by
-  induction n generalizing c b with
-  | zero => intro cb hcb; simp only [normCB, List.mem_singleton] at hcb; subst hcb; exact h
-  | succ n ih =>
-    cases c with
-    | not c => simp only [normCB]; exact ih c (!b) (by simp only [C.eval] at h; rw [← h]; simp)
-    | and x y =>
-      cases b with
-      | true =>
-        simp only [normCB]; simp only [C.eval, Bool.and_eq_true] at h
-        intro cb hcb; rcases List.mem_append.1 hcb with hcb | hcb
-        · exact ih x true h.1 cb hcb
-        · exact ih y true h.2 cb hcb
-      | false => intro cb hcb; simp only [normCB, List.mem_singleton] at hcb; subst hcb; exact h
-    | or x y =>
-      cases b with
-      | false =>
-        simp only [normCB]; simp only [C.eval, Bool.or_eq_false_iff] at h
-        intro cb hcb; rcases List.mem_append.1 hcb with hcb | hcb
-        · exact ih x false h.1 cb hcb
-        · exact ih y false h.2 cb hcb
-      | true => intro cb hcb; simp only [normCB, List.mem_singleton] at hcb; subst hcb; exact h
-    | eq x y =>
-      cases b with
-      | true =>
-        simp only [normCB]
-        have he : x.eval o env = y.eval o env := by simpa [C.eval, ho.eq] using h
-        intro cb hcb
-        simp only [List.mem_cons, List.not_mem_nil, or_false] at hcb
-        rcases hcb with rfl | rfl | rfl
-        · exact h
-        · simp [C.eval, ho.le, he]
-        · simp [C.eval, ho.le, he]
-      | false => intro cb hcb; simp only [normCB, List.mem_singleton] at hcb; subst hcb; exact h
-    | lt x y | le x y | isnan x | isinf x =>
-      intro cb hcb; simp only [normCB, List.mem_singleton] at hcb; subst hcb; exact h
-
-theorem normPath_sound' (ho : LinLike o) (env : Nat → α) {path : Path}
-    (hp : PathHolds o env path) : PathHolds o env (normPath path) := by
-  intro cb hcb
-  simp only [normPath, List.mem_flatMap] at hcb
-  obtain ⟨cb0, hmem, hin⟩ := hcb
-  exact normCB_sound' ho env 8 cb0.1 cb0.2 (hp cb0 hmem) cb hin
-
-theorem impliedAtomLin_sound (ho : LinLike o) (env : Nat → α) {np : Path}
-    (hp : PathHolds o env np) {c : C} {b : Bool} (h : impliedAtomLin np c = some b) : c.eval o env = b := by
-  have hes := pathEdges_sound ho env hp
-  cases c with
-  | lt x y =>
-    simp only [impliedAtomLin] at h
-    split at h
-    · rename_i h1; cases h; simpa [C.eval, ho.lt] using reachLT_sound ho env hes _ _ _ h1
-    · split at h
-      · rename_i h1; cases h; simpa [C.eval, ho.lt] using reachLE_sound ho env hes _ _ _ h1
-      · cases h
-  | le x y =>
-    simp only [impliedAtomLin] at h
-    split at h
-    · rename_i h1; cases h; simpa [C.eval, ho.le] using reachLE_sound ho env hes _ _ _ h1
-    · split at h
-      · rename_i h1; cases h; simpa [C.eval, ho.le] using reachLT_sound ho env hes _ _ _ h1
-      · cases h
-  | eq x y =>
-    simp only [impliedAtomLin] at h
-    split at h
-    · rename_i h1; cases h
-      rw [Bool.or_eq_true] at h1
-      simp only [C.eval, ho.eq, decide_eq_false_iff_not]
-      rcases h1 with h1 | h1
-      · exact ne_of_lt (reachLT_sound ho env hes _ _ _ h1)
-      · exact ne_of_gt (reachLT_sound ho env hes _ _ _ h1)
-    · split at h
-      · rename_i h1; cases h
-        rw [Bool.and_eq_true] at h1
-        simp only [C.eval, ho.eq, decide_eq_true_eq]
-        exact le_antisymm (reachLE_sound ho env hes _ _ _ h1.1) (reachLE_sound ho env hes _ _ _ h1.2)
-      · cases h
-  | _ => simp [impliedAtomLin] at h
-
-theorem impliedLin_sound (ho : LinLike o) (env : Nat → α) : ImpSound o env impliedLin := by
-  intro path c
-  have hr := ho.toRingLike
-  have atom : ∀ c : C, ∀ b, PathHolds o env path →
-      (match path.find? (fun cb => condOK c cb.1) with
-        | some cb => some cb.2
-        | none => impliedAtomLin (normPath path) c) = some b → c.eval o env = b := by
-    intro c b hp h
-    split at h
-    · rename_i cb hf
-      cases h
-      have hm := List.mem_of_find?_eq_some hf
-      have hc := List.find?_some hf
-      rw [condOK_sound_w hr env hc]; exact hp cb hm
-    · exact impliedAtomLin_sound ho env (normPath_sound' ho env hp) h
-  induction c with
-  | not c ih =>
-    intro b hp h
-    simp only [impliedLin, Option.map_eq_some_iff] at h
-    obtain ⟨b', hb', rfl⟩ := h
-    simp only [C.eval, ih b' hp hb']
-  | and x y ihx ihy =>
-    intro b hp h
-    simp only [impliedLin] at h
-    split at h
-    · rename_i hx; cases h; simp [C.eval, ihx false hp hx]
-    · rename_i hy _; cases h; simp [C.eval, ihy false hp hy]
-    · rename_i hx hy; cases h; simp [C.eval, ihx true hp hx, ihy true hp hy]
-    · cases h
-  | or x y ihx ihy =>
-    intro b hp h
-    simp only [impliedLin] at h
-    split at h
-    · rename_i hx; cases h; simp [C.eval, ihx true hp hx]
-    · rename_i hy _; cases h; simp [C.eval, ihy true hp hy]
-    · rename_i hx hy; cases h; simp [C.eval, ihx false hp hx, ihy false hp hy]
-    · cases h
-  | lt a b' | le a b' | eq a b' | isnan a | isinf a =>
-    intro b hp h
-    simp only [impliedLin] at h
-    exact atom _ b hp h
-
-theorem eqCandsLin_sound (ho : LinLike o) (env : Nat → α) {np : Path}
-    (hp : PathHolds o env np) {σ : E × E} (h : σ ∈ eqCandsLin np) : σ.1.eval o env = σ.2.eval o env := by
-  have hes := pathEdges_sound ho env hp
-  simp only [eqCandsLin, List.mem_filterMap] at h
-  obtain ⟨cb, _, hcb⟩ := h
-  split at hcb
-  all_goals first
-    | (split at hcb
-       · rename_i h1
-         simp only [Option.some.injEq] at hcb; subst hcb
-         rw [Bool.and_eq_true] at h1
-         exact le_antisymm (reachLE_sound ho env hes _ _ _ h1.1) (reachLE_sound ho env hes _ _ _ h1.2)
-       · cases hcb)
-    | cases hcb
-
 /-- the same expression up to the order of the operands of commutative operations has the same value -/
-theorem identEq_sound (ho : LinLike o) (env : Nat → α) (a b : E) (h : identEq a b = true) :
+theorem identEq_sound (ho : LinCommLike o) (env : Nat → α) (a b : E) (h : identEq a b = true) :
     a.eval o env = b.eval o env := by
-  have hr := ho.toRingLike
+  have hr := ho.toLinLike.toRingLike
   induction a generalizing b with
   | add a1 a2 ih1 ih2 =>
     cases b <;> try (simp only [identEq, beq_iff_eq] at h; rw [h])
@@ -343,12 +101,12 @@ theorem identEq_sound (ho : LinLike o) (env : Nat → α) (a b : E) (h : identEq
   | var i | lit n d | konst k =>
     simp only [identEq, beq_iff_eq] at h; rw [h]
 
-theorem leafIdent_sound (ho : LinLike o) (env : Nat → α) {path : Path}
+theorem leafIdent_sound (ho : LinCommLike o) (env : Nat → α) {path : Path}
     (hp : PathHolds o env path) {a b : E} (h : leafIdent path a b = true) : a.eval o env = b.eval o env := by
   simp only [leafIdent, Bool.or_eq_true, List.any_eq_true] at h
   rcases h with h | ⟨σ, hσ, h⟩
   · exact identEq_sound ho env a b h
-  · have he := eqCandsLin_sound ho env (normPath_sound' ho env hp) hσ
+  · have he := eqCandsLin_sound ho.toLinLike env (normPath_sound' ho.toLinLike env hp) hσ
     rcases h with h | h
     · have h1 : ∀ p ∈ [σ], p.1.eval o env = p.2.eval o env := by
         intro p hp'; simp only [List.mem_singleton] at hp'; subst hp'; exact he
@@ -375,7 +133,7 @@ theorem expandAbs_sound (env : Nat → α) (absArg : E → Option E)
   | branch c t f iht ihf => simp only [expandAbs, Tree.eval, iht, ihf]
 
 /-- integer units: `LinLike` + the bit facts the pre-pass uses -/
-structure IntSimdLike (o : Ops α) : Prop extends LinLike o where
+structure IntSimdLike (o : Ops α) : Prop extends LinCommLike o where
   band_self : ∀ a, o.band a a = a
   bxor_eq_zero : ∀ a b, o.eq (o.bxor a b) (o.lit 0 1) = o.eq a b
   abs_trick : ∀ a, o.sub (o.bxor a (o.shr a (o.lit 31 1))) (o.shr a (o.lit 31 1)) =
@@ -429,13 +187,13 @@ theorem absArgI_sound (ho : IntSimdLike o) (env : Nat → α) (e t : E) (h : abs
 theorem outOKI_sound (ho : IntSimdLike o) (p s : Unit) (j : Nat) (h : outOKI p s j = true) (env : Nat → α) :
     (p.out j).eval o env = (s.out j).eval o env := by
   unfold outOKI at h
-  obtain ⟨path, hp, hl⟩ := treeEqv_sound (impliedLin_sound ho.toLinLike env) _ _ h (by intro cb hcb; cases hcb)
+  obtain ⟨path, hp, hl⟩ := treeEqv_sound (impliedLin_sound ho.toLinCommLike.toLinLike env) _ _ h (by intro cb hcb; cases hcb)
   have e1 : (prepI (p.out j)).eval o env = (p.out j).eval o env := by
     unfold prepI; rw [normConds_sound ho env, expandAbs_sound env absArgI (absArgI_sound ho env)]
   have e2 : (prepI (s.out j)).eval o env = (s.out j).eval o env := by
     unfold prepI; rw [normConds_sound ho env, expandAbs_sound env absArgI (absArgI_sound ho env)]
   rw [← e1, ← e2, Tree.eval_eq_select o env (prepI (p.out j)), Tree.eval_eq_select o env (prepI (s.out j))]
-  exact leafIdent_sound ho.toLinLike env hp hl
+  exact leafIdent_sound ho.toLinCommLike env hp hl
 
 end lin
 
@@ -451,10 +209,8 @@ structure RealSimdLike (o : Ops K) : Prop extends OrderedEqLike o where
   bor_comm : ∀ a b, o.bor a b = o.bor b a
   bxor_comm : ∀ a b, o.bxor a b = o.bxor b a
 
-theorem RealSimdLike.linLike (ho : RealSimdLike o) : LinLike o :=
-  { toRingLike := ho.toRingLike, lt := ho.lt, le := ho.le, eq := ho.eq,
-    lit_mono := fun n m _ h _ => by
-      rw [ho.toRingLike.lit, ho.toRingLike.lit]; exact_mod_cast h
+theorem RealSimdLike.linLike (ho : RealSimdLike o) : LinCommLike o :=
+  { toLinLike := ho.toOrderedEqLike.linLike,
     band_comm := ho.band_comm, bor_comm := ho.bor_comm, bxor_comm := ho.bxor_comm }
 
 theorem absArgR_sound (ho : RealSimdLike o) (env : Nat → K) (e t : E) (h : absArgR e = some t) :
@@ -494,7 +250,7 @@ theorem outOKR_sound (ho : RealSimdLike o) (m : Mode) (p s : Unit) (j : Nat) (h 
     (hz : m = .sqrtsq → o.call1 .sqrt (o.lit 0 1) = o.lit 0 1) :
     (p.out j).eval o env = (s.out j).eval o env := by
   unfold outOKR at h
-  obtain ⟨path, hp, hl⟩ := treeEqv_sound (impliedLin_sound ho.linLike env) _ _ h (by intro cb hcb; cases hcb)
+  obtain ⟨path, hp, hl⟩ := treeEqv_sound (impliedLin_sound ho.linLike.toLinLike env) _ _ h (by intro cb hcb; cases hcb)
   rw [← prepR_sound ho env m (p.out j), ← prepR_sound ho env m (s.out j),
     Tree.eval_eq_select o env (prepR m (p.out j)), Tree.eval_eq_select o env (prepR m (s.out j))]
   cases m with
@@ -510,7 +266,7 @@ theorem outOKR_sound (ho : RealSimdLike o) (m : Mode) (p s : Unit) (j : Nat) (h 
     · exact leafField_sound ho env hp hl hdd.1 hdd.2
     · exact fracEqMod_sound ho.toFieldLike hl env (hs rfl) hdd.1 hdd.2
     · exact fracEqMod_sound ho.toFieldLike hl env (hs rfl) hdd.1 hdd.2
-    · have he := eqCandsLin_sound ho.linLike env (normPath_sound' ho.linLike env hp) hσ
+    · have he := eqCandsLin_sound ho.linLike.toLinLike env (normPath_sound' ho.linLike.toLinLike env hp) hσ
       rcases hl with hl | hl
       · have h1 : ∀ q ∈ [σ], q.1.eval o env = q.2.eval o env := by
           intro q hq; simp only [List.mem_singleton] at hq; subst hq; exact he
